@@ -79,7 +79,8 @@ STREAM = ('beta_state(%s, %s, old(self.arm_to_expectation), self.arm_to_success_
 predict_contracts('thompson', '_ThompsonSampling', E1, EM, STREAM % SIZE1, STREAM % SIZEM,
                   # the last row's draws are cached in arm_to_expectation (outside the learned state, C10)
                   modifies=('self.rng.rng.state', 'self.arm_to_expectation'),
-                  requires=('INV', 'is_none(contexts) or rows(contexts) >= 1'))
+                  requires=('INV', 'is_none(contexts) or rows(contexts) >= 1'),
+                  extra_ensures=['[C08,cache.keys] keys(self.arm_to_expectation) == self.arms'])
 
 TS_MAPS = ['arm_to_success_count', 'arm_to_fail_count']
 arm_change_contracts('_ThompsonSampling', TS_MAPS + ['arm_to_expectation'],
